@@ -140,11 +140,14 @@ def timer_lemma(workdir):
             ("post", ["--init=IndInitNew", "--inv=Post", "--length=1"], True),
             ("non-vacuity (must fail)", ["--init=Init", "--inv=NeverFull", "--length=3"], False)]
     out = {"tool": "apalache-mc 0.58", "module": "spec/TimerInd.tla", "obligations": []}
+    tmpd = os.path.join(workdir, "apalache-tmp")
+    os.makedirs(tmpd, exist_ok=True)
     for name, args, expect_ok in runs:
         t0 = time.time()
         p = subprocess.run(["timeout", "900", "apalache-mc", "check", "--cinit=ConstInit"] + args +
                            ["--out-dir=" + os.path.join(workdir, "apalache"), "TimerInd.tla"],
-                           cwd=os.path.join(common.VERIF, "spec"), stdout=subprocess.PIPE, stderr=subprocess.STDOUT, text=True)
+                           cwd=os.path.join(common.VERIF, "spec"), stdout=subprocess.PIPE, stderr=subprocess.STDOUT, text=True,
+                           env=dict(os.environ, JVM_ARGS="-Djava.io.tmpdir=" + tmpd))
         ok = "EXITCODE: OK" in p.stdout
         err = "Checker has found an error" in p.stdout and "EXITCODE: ERROR (12)" in p.stdout
         if not ok and not err:
